@@ -23,6 +23,16 @@ def err_len(bpt):
 def inputs_for(bpt, tier):
     e = err_len(bpt)
     scale = max(1, round(bpt / 2.5)) if bpt > 100 else 1
+    if bpt > 100:
+        # a real-world resolution: coordinates in the 10^4 range make the per-base oracle ~30x more expensive, so
+        # this texel size gets a small representative input set (rounding behaviour of floor(k*bpt) is what it adds)
+        out = []
+        for style in ("tpf", "fasta"):
+            for ll in ((8 * e + 4,), (e, 8 * e + 4), (8 * e + 4, 2 * e + 1), (8 * e + 4, 8 * e + 4)):
+                for st in ((1,) * len(ll), (-1,) + (1,) * (len(ll) - 1)) if style == "tpf" else ((1,) * len(ll),):
+                    seps_ = ((("G", 200, "scaffold"),),) * (len(ll) - 1)
+                    out.append((("scaffold_1", pv.scaffold_rows(style, "scaffold_1", ll, seps_, st)),))
+        return out
     lens = [1, e, 2 * e + 1, 8 * e + 4] if tier == "thorough" else [1, e, 8 * e + 4]
     out = []
     # 200-bp separators make scaffolds of > 200 texels at 1 bp/texel (cost per case x4, cut sets x10): the thorough tier
